@@ -231,14 +231,16 @@ def custom_type_fallback(ctx, rng):
         def __default__(cls):
             return cls.__new__(cls)
 
-    for endian in "<>":
-        for align in (False, True):
+    texts = ["struct T { uint8 a; custom_t c; uint16 b; uint8 d:3; uint8 e:5; };",
+             "struct T { uint8 a; custom_t c[2]; uint16 b; uint8 d:3; uint8 e:5; };",
+             "struct T { uint8 a; uint8 x; custom_t c[1][2]; uint16 b; uint8 d:3; uint8 e:5; };"]
+    for endian, align, text in [(e, a, t) for e in "<>" for a in (False, True) for t in texts]:
+        if True:
             res = []
-            data = bytes(rng.randrange(256) for _ in range(16))
+            data = bytes(rng.randrange(256) for _ in range(24))
             for compiled in (True, False):
                 cs = lib.cstruct(endian=endian)
                 cs.add_custom_type("custom_t", Custom, 3, 1)
-                text = "struct T { uint8 a; custom_t c; uint16 b; uint8 d:3; uint8 e:5; };"
                 try:
                     cs.load(text, compiled=compiled, align=align)
                 except Exception as e:  # noqa: BLE001
